@@ -9,7 +9,9 @@
    every observation.                                                                                    *)
 EXTENDS Naturals, Sequences, FiniteSets
 
-Shapes == {"narrow", "strings", "nested_struct", "all_null",
+\* sliced = a zero-copy slice of a larger batch (array offsets, bit-packed columns starting mid-byte);
+\* mixed_types = bool / fixed-size binary / decimal / timestamp / large_string / dense-null columns
+Shapes == {"narrow", "strings", "nested_struct", "all_null", "sliced", "mixed_types",
            "wide_10", "wide_64", "wide_100", "wide_1000", "long_names",
            "schema_meta_100", "schema_meta_3k", "schema_meta_5k", "schema_meta_100k", "field_meta_10k",
            "dict_top", "dict_top_wide", "dict_nested_list", "dict_nested_struct", "big_data"}
@@ -19,17 +21,23 @@ Rows == {"zero", "one", "many"}
 Places == {"between", "last", "tail"}
 
 \* ---- single writes: one batch written between live neighbours / before canary space / at the segment tail
-SingleCases == {[kind |-> "single", shape |-> s, rows |-> r, place |-> p, pattern |-> "-"] : s \in Shapes, r \in Rows, p \in Places}
+\* via: the writing entry point -- ShmSegment.allocate_and_write, or maybe_write_to_shm (the transport's wrapper: size
+\* threshold, pointer batch carrying offset/length metadata), exercised with the batch class that passes its threshold
+Vias(s, r) == IF s = "big_data" /\ r = "many" THEN {"allocate_and_write", "maybe_write_to_shm"} ELSE {"allocate_and_write"}
+SingleCases == {x \in [kind : {"single"}, shape : Shapes, rows : Rows, place : Places, pattern : {"-"},
+                        via : {"allocate_and_write", "maybe_write_to_shm"}] : x.via \in Vias(x.shape, x.rows)}
 
 \* ---- write sequences on ONE segment: 2-3 consecutive writes whose schemas have the same fields and differ at most
 \* in metadata (pa.Schema.equals ignores it), or whose nested dictionary grows/shrinks, or that differ in rows only.
 \* The size of the varying part follows the pattern (S = small, L = large); every write of the chain is judged, and
 \* after every write all batches written earlier in the chain must still be intact.
-SeqFamilies == {"schema_meta", "field_meta", "both_meta", "nested_dict", "top_dict", "rows_only"}
+\* "reuse": the first batch of the chain is freed before the last write, which is sized to land in the freed hole
+SeqFamilies == {"schema_meta", "field_meta", "both_meta", "nested_dict", "top_dict", "rows_only", "reuse"}
 Patterns == {"up", "down", "up_down", "down_up", "same"}
 Levels(p) == CASE p = "up" -> <<"S", "L">> [] p = "down" -> <<"L", "S">> [] p = "up_down" -> <<"S", "L", "S">>
                [] p = "down_up" -> <<"L", "S", "L">> [] p = "same" -> <<"L", "L">>
-SeqCases == {[kind |-> "seq", shape |-> f, rows |-> r, place |-> "chain", pattern |-> p] : f \in SeqFamilies, r \in Rows, p \in Patterns}
+SeqCases == {[kind |-> "seq", shape |-> f, rows |-> r, place |-> "chain", pattern |-> p, via |-> "allocate_and_write"] :
+                f \in SeqFamilies, r \in Rows, p \in Patterns}
 
 Cases == SingleCases \cup SeqCases
 \* the write either stays inside its allocation or does not happen (no fit -> None); for a sequence: the level of
